@@ -14,6 +14,7 @@ CLASSES = [
 ]
 CID = {c: i for i, c in enumerate(CLASSES)}
 NEWTYPES = [U.NT0, U.NT1, U.NT2]
+TYPEVARS = [typing.TypeVar("T0"), typing.TypeVar("T1"), typing.TypeVar("T2")]
 FLOATS = [1.5, 2.5, -0.5]
 COMPLEXES = [1.5j, 2 + 0.5j]
 N_INST = {U.A: 2, U.B: 2, U.Cc: 1, U.D: 1, U.Color: 2, U.IE: 2}
@@ -155,6 +156,8 @@ def ty_sexp(t):
         return "(" + " ".join(["union"] + [ty_sexp(x) for x in t[1]]) + ")"
     if k in ("many", "annotated"):
         return "(%s %s)" % (k, ty_sexp(t[1]))
+    if k == "tvar":
+        return "(tvar %d)" % t[1]
     raise ValueError(t)
 
 
@@ -183,6 +186,8 @@ def ty_to_value(t):
         return V.SubclassValue(V.TypedValue(CLASSES[t[1]]))
     if k == "annotated":
         return V.AnnotatedValue(ty_to_value(t[1]), [V.KnownValue("meta")])
+    if k == "tvar":
+        return V.TypeVarValue(TYPEVARS[t[1]])
     raise ValueError(t)
 
 
@@ -218,6 +223,10 @@ def value_to_ty(v):
         raise Unencodable(v)
     if isinstance(v, V.AnnotatedValue):
         return ("annotated", value_to_ty(v.value))
+    if isinstance(v, V.TypeVarValue):
+        if v.typevar in TYPEVARS and v.bound is None and not v.constraints and not v.is_paramspec:
+            return ("tvar", TYPEVARS.index(v.typevar))
+        raise Unencodable(v)
     raise Unencodable(v)
 
 
